@@ -17,6 +17,7 @@ from __future__ import annotations
 
 import itertools
 import json
+import os
 import time
 
 from . import c03, common
@@ -53,9 +54,17 @@ EXTRA_QUERIES = [
     "mutation { m1 { bestFriend { name req id } nnFriend { name req } } m2 { name nnFriend { req id } } m3 { id name } }",
     "mutation { m1 { friends { name req } } m2 { nnFriends { req name } id } }",
     "{ a { bestFriend { nnFriend { req name } name } nnFriend { bestFriend { req } name } } b { req name } }",
+    "mutation { m1 { bestFriend { bestFriend { name } req } req } m2 { name } }",
+    "mutation { m1 { bestFriend { nnFriend { bestFriend { id } req } name } req id } m2 { id } m3 { name req } }",
 ]
 
 ORPHAN_KEY = "mutation-root-starts-while-background-work-of-earlier-root-pending"
+DELIVERY_KEY = "response-delivered-while-resolver-still-unwinding"
+# True: also run an unused abort signal together with resolvers that need several loop iterations of cleanup on cancellation
+# (a defect of /repo cf8f094: with_abort_signal cancels the wrapped task without awaiting it, see
+# corpus/CASYNC/repro_unused_abort_signal_cleanup_on_cancel.py and the suggested fix next to it; CASYNC_ABORT_WITH_CLEANUP=1
+# turns the configuration on, violations are reported under UNWIND_KEY / DELIVERY_KEY)
+ABORT_WITH_CLEANUP = os.environ.get("CASYNC_ABORT_WITH_CLEANUP", "") == "1"
 UNWIND_KEY = "mutation-root-starts-while-awaitable-of-earlier-root-unwinding"
 # True: the overlap is a violation of the serial clause (one stable key); False: it is only counted
 REPORT_ORPHAN_OVERLAP = True
@@ -86,6 +95,31 @@ FIXED = [
      {("m1",): (A, "value"), ("m1", "bestFriend"): (A, "value"), ("m1", "req"): (A, "raise"), ("m2", "name"): (A, "value"),
       ("m3", "req"): (A, "null")},
      [("m1",), ("m1", "req"), ("m2", "name"), ("m3", "req")]),
+    # a cancelled sibling that needs several loop iterations to wind down (awaited cleanup / the extra task of an unused
+    # abort signal) must have finished before the next root field starts / before the response is delivered
+    ("mutation { m1 { name req id } m2 { id } }",
+     {("m1", "name"): (A, "value"), ("m1", "req"): (A, "raise"), ("m1", "id"): (A, "value")},
+     [("m1", "req"), ("m1", "name"), ("m1", "id")],
+     {("m1", "name"): "coroutine_cleanup", ("m1", "id"): "coroutine", ("m1", "req"): "future"}),
+    ("mutation { m1 { name req } m2 { id } }",
+     {("m1",): (A, "value"), ("m1", "name"): (A, "value"), ("m1", "req"): (A, "raise"), ("m2", "id"): (A, "value")},
+     [("m1",), ("m1", "req"), ("m2", "id"), ("m1", "name")],
+     {("m1", "name"): "coroutine_cleanup", ("m1", "req"): "generator", ("m2", "id"): "object"}),
+    ("{ me { name req id } a { id } }",
+     {("me", "name"): (A, "value"), ("me", "req"): (A, "raise"), ("me", "id"): (A, "value")},
+     [("me", "req"), ("me", "name")],
+     {("me", "name"): "coroutine_cleanup", ("me", "id"): "coroutine", ("me", "req"): "task"}),
+    # two nesting levels of "synchronous non-null failure next to a pending awaitable" inside one mutation root field:
+    # the abandoned sibling, going on in the background, abandons a sibling of its own
+    ("mutation { m1 { bestFriend { bestFriend { name } req } req } m2 { name } }",
+     {("m1",): (A, "value"), ("m1", "bestFriend"): (A, "value"), ("m1", "req"): (S, "raise"),
+      ("m1", "bestFriend", "bestFriend"): (A, "value"), ("m1", "bestFriend", "req"): (S, "raise"), ("m2", "name"): (A, "value")},
+     [("m1",), ("m1", "bestFriend"), ("m1", "bestFriend", "bestFriend"), ("m2", "name")]),
+    ("mutation { m1 { bestFriend { nnFriend { bestFriend { id } req } name } req } m2 { id } }",
+     {("m1",): (A, "value"), ("m1", "bestFriend"): (A, "value"), ("m1", "req"): (S, "raise"),
+      ("m1", "bestFriend", "name"): (A, "value"),
+      ("m1", "bestFriend", "nnFriend", "bestFriend"): (A, "value"), ("m1", "bestFriend", "nnFriend", "req"): (S, "null")},
+     [("m1",), ("m1", "bestFriend"), ("m1", "bestFriend", "nnFriend", "bestFriend"), ("m1", "bestFriend", "name")]),
 ]
 
 
@@ -131,13 +165,20 @@ def spy_executor(captured):
     return Spy
 
 
-def run_real(schema, doc, beh, order, lp=False):
+def run_real(schema, doc, beh, order, lp=False, signal=False, kinds=None):
     """execute() under the controlled loop (lp: execute() itself is called inside the running loop).
     Returns a dict of observations."""
     from graphql import execute
     log, captured, snap = [], [], {}
     ctl = Ctl()
-    w = c03.World(None, [ctl], beh, log)
+    # an abort signal that never fires must not change anything; (on a tree where with_abort_signal does not await the
+    # work it cancels, several ticks of cleanup behind the signal's extra task are a known defect: ABORT_WITH_CLEANUP)
+    w = c03.World(None, [ctl], beh, log, cleanup=0 if signal and not ABORT_WITH_CLEANUP else 3)
+    w.kind_override = dict(kinds or {})
+    kw = {}
+    if signal:
+        from graphql.pyutils import AbortController
+        kw["abort_signal"] = AbortController().signal
     try:
         spy = spy_executor(captured)
     except Exception:  # noqa: BLE001
@@ -147,9 +188,10 @@ def run_real(schema, doc, beh, order, lp=False):
         snap["futures"] = [(lab, "cancelled" if f.cancelled() else ("done" if f.done() else "pending"))
                            for lab, f in ctl.made]
         snap["ncalls"] = len([1 for ev, _ in log if ev == "call"])
+        snap["nlog"] = len(log)
 
     def call():
-        return execute(schema, doc, w.root(), executor_class=spy) if spy else execute(schema, doc, w.root())
+        return execute(schema, doc, w.root(), executor_class=spy, **kw) if spy else execute(schema, doc, w.root(), **kw)
 
     def make(_c):
         if lp:
@@ -174,7 +216,8 @@ def run_real(schema, doc, beh, order, lp=False):
 
     kind, res = ctl.run(make, list(order))
     obs = {"kind": kind, "log": log, "completed": list(ctl.completed_order), "futures": snap.get("futures", []),
-           "ncalls_at_finish": snap.get("ncalls", 0), "positions": None, "result": res}
+           "ncalls_at_finish": snap.get("ncalls", 0), "nlog_at_finish": snap.get("nlog", len(log)), "positions": None,
+           "result": res, "kinds_used": sorted(getattr(w, "kinds_used", ()))}
     if captured:
         try:
             obs["positions"] = {tuple(p.as_list()) if p is not None else () for p in captured[0].collected_errors._error_positions}
@@ -347,22 +390,22 @@ def report_once(ck, key, what, rep):
 # --------------------------------------------------------------------------- one comparison
 
 
-def observe(schema, q, doc, beh, order, tree_info, lp=False):
+def observe(schema, q, doc, beh, order, tree_info, lp=False, signal=False, kinds=None):
     """Run the implementation under `order`; returns the observations and the model request (the schedule is the
     completion order the loop actually used)."""
     root, leaves, _paths = tree_info
-    obs = run_real(schema, doc, beh, order, lp)
+    obs = run_real(schema, doc, beh, order, lp, signal, kinds)
     keys = Keys()
     wire_tree = enc_node(root, keys)
     sched = [keys.path(p) for p in obs["completed"]]
     wire = [1, int(lp)] + wire_tree + [len(sched)] + [x for p in sched for x in [len(p)] + p]
     return {"q": q, "beh": beh, "order": order, "obs": obs, "keys": keys, "wire": wire, "root": root, "leaves": leaves,
-            "lp": lp}
+            "lp": lp, "signal": signal, "kinds": kinds or {}}
 
 
-def compare(ck, m, schema, q, doc, beh, order, tree_info, rep_extra=None, lp=False):
+def compare(ck, m, schema, q, doc, beh, order, tree_info, rep_extra=None, lp=False, signal=False, kinds=None):
     """One request through implementation and model."""
-    o = observe(schema, q, doc, beh, order, tree_info, lp)
+    o = observe(schema, q, doc, beh, order, tree_info, lp, signal, kinds)
     judge(ck, o, m.run_batch([o["wire"]])[0], rep_extra)
 
 
@@ -371,10 +414,11 @@ def judge(ck, o, out, rep_extra=None):
     ans = dec_answer(out, keys, leaves)
     n_async = count_nodes(root, lambda n: n[2])
     n_err = count_nodes(root, lambda n: n[3] == 0 or (n[3] == 1 and n[1]))
-    canon = (q, repr(sorted(beh.items())), tuple(order), o.get("lp", False))
+    canon = (q, repr(sorted(beh.items())), tuple(order), o.get("lp", False), o.get("signal", False), repr(sorted(o.get("kinds", {}).items())))
     ck.note_case(("casync",) + canon, nontrivial=n_async >= 2 and n_err >= 1)
-    key = f"async-model:{q}:{sorted(beh.items())!r}:{tuple(order)!r}:{o.get('lp', False)}"
-    rep = {"kind": "casync", "lp": o.get("lp", False), "query": q, "behaviours": [[list(p), mo, wh] for p, (mo, wh) in sorted(beh.items(), key=repr)],
+    key = f"async-model:{q}:{sorted(beh.items())!r}:{tuple(order)!r}:{o.get('lp', False)}:{o.get('signal', False)}"
+    rep = {"kind": "casync", "lp": o.get("lp", False), "signal": o.get("signal", False),
+           "kinds": [[list(p), k] for p, k in sorted(o.get("kinds", {}).items(), key=repr)], "query": q, "behaviours": [[list(p), mo, wh] for p, (mo, wh) in sorted(beh.items(), key=repr)],
            "order": [list(p) for p in order], "completed": [list(p) for p in obs["completed"]], "wire": wire}
     if rep_extra:
         rep.update(rep_extra)
@@ -452,6 +496,23 @@ def judge(ck, o, out, rep_extra=None):
     for d in diffs[:3]:
         ck.violation(key, "model Exec/Async.v vs execute(): " + d,
                      dict(rep, relation="extracted model = implementation", impl=f, model_events=[list(map(str, e)) for e in evs][:60]))
+    for k in obs.get("kinds_used", ()):
+        ck.count("casync_awaitable_kind_" + k)
+    if o.get("signal"):
+        ck.count("casync_runs_with_unused_abort_signal")
+    # when the response is delivered only background work (abandoned siblings) may still be running: a cancelled resolver
+    # must have finished unwinding
+    running = {}
+    for ev, p in obs["log"][:obs["nlog_at_finish"]]:
+        if ev == "begin":
+            running[p] = True
+        elif ev == "end":
+            running.pop(p, None)
+    late = [p for p in running if p not in m_pending]
+    if late:
+        report_once(ck, DELIVERY_KEY, f"the response was delivered while the resolver awaitable of {list(late[0])} was still running "
+                    f"(model: {'cancelled' if late[0] in m_cancel else 'not pending'})",
+                    dict(rep, relation="the response is delivered only after every awaited or cancelled resolver has finished", impl=f))
     # the serial clause on the implementation, including background work and the unwinding of cancelled awaitables
     if q.startswith("mutation"):
         root_keys = [c[0] for c in root[4][1]]
@@ -567,7 +628,7 @@ def core(ck, tier, model_ok, budget_s=None):
         return
     from graphql import build_schema, parse
     quick = tier == "quick"
-    budget = budget_s if budget_s is not None else (45 if quick else 420)
+    budget = budget_s if budget_s is not None else (25 if quick else 420)
     t0 = time.time()
     rng = ck.rng
     m = Model(MODEL)
@@ -575,10 +636,12 @@ def core(ck, tier, model_ok, budget_s=None):
     schema = build_schema(c03.SDL)
     for c in common.load_corpus(PID):
         run_corpus_case(ck, m, schema, c)
-    for q, beh, order in FIXED:
+    for q, beh, order, *kinds in FIXED:
         doc = parse(q)
         for lp in (False, True):
-            compare(ck, m, schema, q, doc, beh, order, derive_tree(schema, doc, beh), lp=lp)
+            for signal in (False, True):
+                compare(ck, m, schema, q, doc, beh, order, derive_tree(schema, doc, beh), lp=lp, signal=signal,
+                        kinds=kinds[0] if kinds else None)
     queries = [q for q in c03.QUERIES + EXTRA_QUERIES]
     docs = [(q, parse(q)) for q in queries]
     base = {}
@@ -588,7 +651,7 @@ def core(ck, tier, model_ok, budget_s=None):
             ck.count("skipped_out_of_fragment")
             continue
         base[q] = info[2]
-    ntrials = 60 if quick else 400
+    ntrials = 40 if quick else 400
     nruns = 0
     stop = False
     for trial in range(1, ntrials + 1):
@@ -603,7 +666,8 @@ def core(ck, tier, model_ok, budget_s=None):
             info = derive_tree(schema, doc, beh)
             labels = [p for p, (mo, _) in sorted(beh.items(), key=repr) if mo == "async"]
             lp = rng.random() < 0.5
-            batch = [observe(schema, q, doc, beh, order, info, lp) for order in orders_for(rng, labels, quick)]
+            signal = rng.random() < 0.25
+            batch = [observe(schema, q, doc, beh, order, info, lp, signal) for order in orders_for(rng, labels, quick)]
             for o, out in zip(batch, m.run_batch([o["wire"] for o in batch])):
                 judge(ck, o, out)
                 nruns += 1
@@ -635,7 +699,8 @@ def run_corpus_case(ck, m, schema, c):
     if info is None:
         ck.count("corpus_case_unusable")
         return
-    compare(ck, m, schema, c["query"], doc, beh, order, info, lp=bool(c.get("lp", False)))
+    compare(ck, m, schema, c["query"], doc, beh, order, info, lp=bool(c.get("lp", False)), signal=bool(c.get("signal", False)),
+            kinds={tuple(p): k for p, k in c.get("kinds", [])})
 
 
 def build():
